@@ -107,6 +107,8 @@ class Ref:
     def load(self):
         v = self.cell.v
         for i in self.path:
+            if type(v) is SharedEnumV:
+                v = v.snapshot()
             v = v.f[i]
         return v
 
@@ -117,6 +119,10 @@ class Ref:
         v = self.cell.v
         for i in self.path[:-1]:
             v = v.f[i]
+        old = v.f[self.path[-1]]
+        if type(old) is SharedEnumV:
+            old.writer(val.idx)
+            return
         v.f[self.path[-1]] = val
 
     def __repr__(self):
@@ -180,6 +186,20 @@ class MapV:
     def f(self):
         # children addressable as flat list [k0, v0, k1, v1, ...] is not needed; values via vref
         return [kv[1] for kv in self.items]
+
+
+class SharedEnumV:
+    """An enum-typed shared variable (e.g. a state machine behind a Mutex) whose reads and writes are
+    visible operations of cfa-bmc. `reader()` returns the current variant index (possibly after forking on a
+    fresh result variable); `writer(idx)` records a store."""
+    __slots__ = ("ty", "variants", "payloads", "reader", "writer")
+
+    def __init__(self, ty, variants, payloads, reader, writer):
+        self.ty, self.variants, self.payloads, self.reader, self.writer = ty, variants, payloads, reader, writer
+
+    def snapshot(self):
+        i = self.reader()
+        return Enum(self.ty, i, self.variants[i], list(self.payloads.get(i, [])))
 
 
 class FnItem:
